@@ -42,6 +42,7 @@ func runFamily(fam string, w *bufio.Writer, r *rng, id, size int, opt string) bo
 		case "", "general":
 			sc := genScenario(r, cfgGeneral)
 			sc.multiTyped(r)
+			sc.multiConv(r)
 			emitCall(w, sc, id, 3, "call", "")
 		case "fail":
 			genCall(w, r, id, cfgFail, 2, "call")
@@ -62,7 +63,9 @@ func runFamily(fam string, w *bufio.Writer, r *rng, id, size int, opt string) bo
 		case "malformed":
 			emitCall(w, genMalformed(r, cfgGeneral), id, 2, "call", "fam=malformed")
 		case "hopeless":
-			emitCall(w, genHopeless(r, cfgGeneral), id, 2, "call", "fam=hopeless")
+			sc := genHopeless(r, cfgGeneral)
+			sc.multiConv(r)
+			emitCall(w, sc, id, 2, "call", "fam=hopeless")
 		case "affinity":
 			sc, extra := genAffinity(r, cfgGeneral)
 			emitCall(w, sc, id, 10, "call", extra)
